@@ -72,6 +72,11 @@ func (db *DB) newIterator(auxm *memDB, auxt tFiles, seq uint64, slice *util.Rang
 		if slice.Limit != nil {
 			islice.Limit = makeInternalKey(nil, slice.Limit, keyMaxSeq, keyTypeSeek)
 		}
+		if slice.Start != nil && slice.Limit != nil && db.s.icmp.uCompare(slice.Start, slice.Limit) > 0 {
+			// An inverted range contains no key: make it an empty one rather
+			// than handing inconsistent bounds to the table and memdb iterators.
+			islice.Limit = islice.Start
+		}
 	}
 	rawIter := db.newRawIterator(auxm, auxt, islice, ro)
 	iter := &dbIter{
